@@ -5,13 +5,14 @@ import types
 import typing
 
 import pyglove as pg
+from pgverif.gen import callables as D
 from pgverif.gen import signatures as S
 
 TIERS = {
     'quick': dict(shards=8, cases=120, calls=20, family_every=2, sibling_calls=6,
-                  histories=2, steps=6),
+                  histories=2, steps=6, decorated_calls=9, nested=3),
     'thorough': dict(shards=16, cases=1500, calls=40, family_every=3, sibling_calls=6,
-                     histories=2, steps=6, timeout_s=3000),
+                     histories=2, steps=6, decorated_calls=9, nested=3, timeout_s=3000),
 }
 RULE = ('case = one generated signature (0-4 positional parameters with/without '
         'defaults, *args, 0-3 keyword-only parameters with/without defaults, '
@@ -36,7 +37,29 @@ RULE = ('case = one generated signature (0-4 positional parameters with/without 
         'placeholders, un-setting a required argument of a partial object, '
         'dropping a **kwargs entry, completing); after every binding that '
         'completes the public instance __dict__ must equal that of a fresh '
-        'Cls(*effective arguments), also for clone and JSON round trip. The oracle binds '
+        'Cls(*effective arguments), also for clone and JSON round trip. Every case '
+        'adds the signature as a DECORATED function and as a class with a decorated '
+        '__init__ (a stack of 1-4 wrapper layers: result wrapped, int arguments '
+        'shifted after binding with the signature, calls counted, a value rejected '
+        'with ValueError, ValueError translated to KeyError, functools.lru_cache and '
+        'functools.partial below a function wrapper; dressed by functools.wraps, '
+        'update_wrapper, a hand-set __wrapped__ or only __signature__; plain or '
+        'staticmethod-defined innermost function), `decorated_calls` ways of '
+        'supplying arguments compared with the decorated callable called directly. '
+        'Every case adds `nested` NESTED histories: an untyped signature as functor '
+        'or symbolized class (pg.symbolize / pg.wrap, construction or .partial) with '
+        '1-2 arguments (positional, *args element, keyword-only, **kwargs entry) '
+        'that are nested symbolic values still PARTIAL (pg.Object with 1-2 holes, '
+        'object in object, symbolized class, typed pg.Dict, Dict/List/functor '
+        'holding one), optionally cloned or JSON round-tripped while partial, then '
+        'completed hole by hole through deep paths (root.rebind of one or several '
+        'deep paths, rebind on the leaf\'s parent, on the argument value, item / '
+        'attribute assignment on the parent; 20% inside pg.notify_on_change(False) '
+        'followed by a notified deep write), later changed below an argument, then '
+        'cloned and JSON round-tripped: the user __init__ must have run exactly once '
+        'per completing binding with the final arguments (instrumented class), the '
+        'functor call must return what the function returns, sym_missing must be '
+        'empty and sym_init_args must describe the final arguments. The oracle binds '
         'each part with inspect.signature(f).bind_partial, merges by name and '
         'calls the plain callable. Non-trivial = the signature has at least two '
         'kinds of parameters and at least one call returned and one was '
@@ -47,7 +70,10 @@ REQUIRED_COUNTERS = ['functor_calls_compared', 'class_constructions_compared',
                      'sibling_functor_calls_compared', 'sibling_class_constructions_compared',
                      'families_with_different_members', 'history_states_compared',
                      'history_recoveries', 'history_placeholder_roundtrips',
-                     'history_partial_completions']
+                     'history_partial_completions',
+                     'decorated_functor_calls_compared', 'decorated_class_constructions_compared',
+                     'nested_completions_checked', 'nested_modifications_checked',
+                     'nested_init_runs_checked', 'nested_functor_calls_compared']
 ASSUMPTIONS = [
     'inspect.signature(f).bind_partial and the call f(*args, **kwargs) are the reference for argument binding',
     'documented functor rules: positional values at call time fill positions from 0; a name bound twice is a TypeError unless override_args; later binding wins with override_args',
@@ -57,6 +83,9 @@ ASSUMPTIONS = [
     'a function is symbolized with the defaults / annotations its function object has at that moment (inspect.signature); it is not changed afterwards; members of a family are renamed before they are symbolized (symbolic classes are registered by name)',
     'the state of a symbolized-class instance is its public instance __dict__ (names without a leading underscore) as written by the user __init__; it is only compared when all arguments are concrete and __init__ returned; while an argument is a placeholder (pg.oneof/floatv/manyof) or a required one is missing, and after a binding whose __init__ raised, the state is a don\'t-care',
     'whether a rebind whose __init__ raised keeps or rolls back the assigned values is left open: every name it assigned (and every rejected value) is assigned again by the next rebind',
+    'pg.functor / pg.symbolize accept functions and classes only: functools.partial objects, lru_cache wrappers, bound methods and callable objects are refused or read as decorator arguments (left open) and are generated only below a function wrapper; the reference is the decorated callable called directly once inspect.signature found the binding valid (an argument that cannot be bound is a TypeError before any decorator runs); decorator effects do not depend on whether an argument is passed positionally, by keyword or through its default',
+    'decorators with state (call counter, cache) are reset before the direct call and before the symbolic call / (re)binding: a (re)binding that completes a symbolized class runs the user __init__ exactly once',
+    'nested partial arguments: a write inside pg.notify_on_change(False) leaves the state open until the next notified write anywhere below the object; a JSON round trip of an object holding a still partial typed pg.Dict is not generated (whether the Dict keeps its value spec is left open); argument snapshots are taken by the user callable when it runs (sym_items of symbolic values), so the nested values themselves are not trusted afterwards',
     'pg.MISSING_VALUE in rebind removes a **kwargs entry / un-sets a required argument of an object made by .partial(); resetting an argument to its default that way is not generated',
 ]
 
@@ -105,6 +134,7 @@ class Target:
 
   fkind, ckind = 'functor', 'class'
   family = None
+  decorated = False
 
   def __init__(self, sig, uid, rng, f=None, K=None, family=None):
     self.sig = sig
@@ -139,6 +169,8 @@ class Target:
       self.F = pg.functor()(self.f)
     elif self.entry == 'symbolize':
       self.F = pg.symbolize(self.f)
+    elif self.entry == 'functor_class':
+      self.F = pg.functor_class(self.f)
     else:
       self.F = pg.symbolize(self.f, auto_typing=True)
     if self.class_entry == 'symbolize':
@@ -191,10 +223,18 @@ class Target:
         return ('TypeError', 'missing-required')
     kwargs = {n: named[n] for n in self.kwo if n in named}
     kwargs.update(extra)
+    self.reset()
     try:
       return ('ok', plain_callable(*args, *varargs, **kwargs))
     except TypeError:
       return ('TypeError', 'missing-required')
+    except Exception as e:  # pylint: disable=broad-except
+      if not self.decorated:
+        raise
+      return (type(e).__name__, 'decorator-raises')
+
+  def reset(self):
+    """Before every call that is compared (decorators with state)."""
 
   def report(self, named, varargs, extra):
     """What sym_init_args should say for these bound arguments."""
@@ -220,6 +260,10 @@ class Target:
 
 def first_difference(t, exp, got):
   """Kind of the first parameter whose value differs (both are dicts of locals)."""
+  if t.decorated:
+    exp, got = D.strip_layers(plain(exp), plain(got))
+    if D.has_effect(exp) or D.has_effect(got):
+      return 'decorator-effect'
   if not isinstance(got, dict) or not isinstance(exp, dict):
     return 'result'
   for name in list(exp) + [n for n in got if n not in exp]:
@@ -244,16 +288,23 @@ def compare(ctx, t, kind, phase, exp, got, witness, pattern):
     c['both_return'] += 1
     if same(exp[1], got[1]):
       return True
-    ctx.violation('wrong-arguments', f'{kind}.{pattern}:{first_difference(t, exp[1], got[1])}',
+    clause, diff = 'wrong-arguments', first_difference(t, exp[1], got[1])
+    mech = f'{kind}.{pattern}:{diff}'
+    if diff == 'decorator-effect':
+      clause, mech = 'wrong-result', f'{kind}:{diff}'
+    ctx.violation(clause, mech,
                   f'plain: {exp[1]!r:.300}\nsymbolic: {plain(got[1])!r:.300}', witness)
     return False
   if exp[0] == 'TypeError' and got[0] == 'TypeError':
     c['both_typeerror'] += 1
     c['reject:' + exp[1]] += 1
     return True
-  if exp[0] == 'TypeError' and got[0] == 'ok':
+  if exp[0] not in ('ok', 'TypeError') and got[0] == exp[0]:
+    c['both_raise_in_callable'] += 1
+    return True
+  if exp[0] != 'ok' and got[0] == 'ok':
     ctx.violation('accepts-invalid', f'{kind}.{phase}:{exp[1]}',
-                  f'the interpreter rejects this binding ({exp[1]}); symbolic returned {plain(got[1])!r:.300}',
+                  f'the direct call raises {exp[0]} ({exp[1]}); symbolic returned {plain(got[1])!r:.300}',
                   witness)
     return False
   if exp[0] == 'ok':
@@ -261,7 +312,7 @@ def compare(ctx, t, kind, phase, exp, got, witness, pattern):
                   f'plain returns {exp[1]!r:.200}; symbolic raised {got[0]}: {got[1]!s:.300}', witness)
     return False
   ctx.violation('error-kind', f'{kind}.{phase}:{exp[1]}',
-                f'plain raises TypeError ({exp[1]}); symbolic raised {got[0]}: {got[1]!s:.300}', witness)
+                f'plain raises {exp[0]} ({exp[1]}); symbolic raised {got[0]}: {got[1]!s:.300}', witness)
   return False
 
 
@@ -448,6 +499,7 @@ def functor_call(ctx, t, j, rng):
     kk = dict(k_)
     if override_at == 'call' or force_override:
       kk['override_args'] = True
+    t.reset()
     return outcome(lambda: obj(*a_, **kk))
   exp = expected(state, a2, k2)
   got = invoke(fo, a2, k2)
@@ -499,11 +551,20 @@ def class_call(ctx, t, j, rng):
   witness = t.witness(**{'class': t.csrc.split('\n')[1].strip(), 'entry': 'class-' + t.class_entry,
                          'pattern': pattern, 'construct': [a, k]})
   c['class_constructions_compared'] += 1
+  t.reset()
   try:
+    if t.decorated:
+      # (an argument that cannot be bound is reported before any decorator runs)
+      t.pysig.bind(*a, **k)
     exp = ('ok', t.K(*a, **k).got)
   except TypeError:
     r = t.reason(a, k)
     exp = ('TypeError', 'missing-required' if r == 'other' else r)
+  except Exception as e:  # pylint: disable=broad-except
+    if not t.decorated:
+      raise
+    exp = (type(e).__name__, 'decorator-raises')
+  t.reset()
   got = outcome(lambda: t.C(*a, **k))
   obj = got[1] if got[0] == 'ok' else None
   gotv = got
@@ -530,6 +591,7 @@ def class_call(ctx, t, j, rng):
       state = (named, varargs, extra)
       witness = dict(witness, rebind=[n, v])
       ctx.label = 'class.rebind'
+      t.reset()
       obj.rebind({n: v}, raise_on_no_change=False)
       ctx.label = None
       c['late_bindings'] += 1
@@ -538,6 +600,7 @@ def class_call(ctx, t, j, rng):
       check_report(ctx, t, t.ckind, obj, state, witness, where='sym_init_args-after-rebind')
   want = t.final(*state, lambda *aa, **kk: t.K(*aa, **kk).got)
   c['clone_checks'] += 1
+  t.reset()
   cl = obj.clone(deep=rng.random() < 0.5)
   check_report(ctx, t, t.ckind, cl, state, witness, what='clone-differs', where='sym_init_args')
   if not same(want[1], cl.got):
@@ -545,6 +608,7 @@ def class_call(ctx, t, j, rng):
                   f'expected {want[1]!r:.200}; clone was initialised with {plain(cl.got)!r:.200}', witness)
   c['json_checks'] += 1
   ctx.label = 'class.json-round-trip'
+  t.reset()
   back = pg.from_json(pg.to_json(obj))
   ctx.label = None
   check_report(ctx, t, t.ckind, back, state, witness, what='json-differs', where='sym_init_args')
@@ -571,11 +635,6 @@ def class_partial(ctx, t, rng):
     return 'rejected'
   c['class_constructions_compared'] += 1
   c['pattern:class-partial'] += 1
-  ctx.label = 'class.partial'
-  obj = t.C.partial(*a, **k1)
-  if k2:
-    obj.rebind(k2, raise_on_no_change=False)
-  ctx.label = None
   named, varargs, extra = r1[1], r1[2], r1[3]
   for n, v in k2.items():
     if n in t.pos + t.kwo:
@@ -584,10 +643,30 @@ def class_partial(ctx, t, rng):
       extra = dict(extra, **{n: v})
   state = (named, varargs, extra)
   want = t.final(*state, lambda *aa, **kk: t.K(*aa, **kk).got)
+  def bind():
+    o = t.C.partial(*a, **k1)
+    if k2:
+      t.reset()     # (a stateful decorator: the run with the final arguments counts)
+      o.rebind(k2, raise_on_no_change=False)
+    return o
+  t.reset()
+  if want[0] in ('ok', 'TypeError'):
+    ctx.label = 'class.partial'
+    obj = bind()
+    ctx.label = None
+  else:
+    # (the decorated __init__ rejects the complete arguments)
+    got = outcome(bind)
+    if got[0] != 'ok':
+      compare(ctx, t, t.ckind, 'rebind', want, got, witness, 'partial')
+      return 'rejected'
+    obj = got[1]
   got = outcome(lambda: obj.got)
   if got[0] != 'ok':
     got = ('ok', '<__init__ did not run>')
   compare(ctx, t, t.ckind, 'rebind', want, got, witness, 'partial')
+  if want[0] != 'ok':
+    return 'rejected'
   check_report(ctx, t, t.ckind, obj, state, witness, where='sym_init_args-after-rebind')
   return 'returned'
 
@@ -640,6 +719,407 @@ def run_family(ctx, sig, uid, rng):
       else:
         functor_call(ctx, t, j, rng)
         c['sibling_functor_calls_compared'] += 1
+
+
+# -- decorated callables -----------------------------------------------------------
+
+class DTarget(Target):
+  """The signature rendered as a DECORATED function (a stack of 1-4 wrapper
+  layers with visible effects) and as a class whose __init__ is decorated; the
+  reference is the decorated callable called directly."""
+  decorated = True
+
+  def __init__(self, sig, uid, rng):   # pylint: disable=super-init-not-called
+    ns = sys.modules[MODULE].__dict__
+    self.fstate, self.cstate = {}, {}
+    self.fstack, shown = D.make_stack(rng, sig)
+    self.cstack, _ = D.make_stack(rng, shown, method=True)
+    self.form = rng.choice(['function', 'function', 'staticmethod'])
+    fname, cname = f'dfn_{uid}', f'DK_{uid}'
+    src = S.render_function(sig, fname)
+    if self.form == 'staticmethod':
+      src = f'class DH_{uid}:\n  @staticmethod\n' + ''.join('  ' + l + '\n' for l in src.splitlines())
+    exec(src, ns)  # pylint: disable=exec-used
+    base = ns[fname] if self.form == 'function' else getattr(ns[f'DH_{uid}'], fname)
+    base.__module__ = MODULE
+    f = D.apply_stack(base, self.fstack, self.fstate)
+    exec(S.render_class(shown, cname), ns)  # pylint: disable=exec-used
+    K = ns[cname]
+    K.__module__ = MODULE
+    K.__init__ = D.apply_stack(K.__init__, self.cstack, self.cstate, method=True)
+    info = {'function': D.describe_stack(self.fstack) + src.splitlines()[:3],
+            '__init__': D.describe_stack(self.cstack)}
+    Target.__init__(self, shown, uid, rng, f=f, K=K, family=info)
+    self.fkind, self.ckind = 'decorated-functor', 'decorated-class'
+    self.entry = rng.choice(['functor', 'functor()', 'symbolize', 'symbolize-auto-typing',
+                             'functor_class'])
+    # what a reader of the decorated callable sees is what the check generates calls for
+    assert self.pysig == own_signature(shown), (str(self.pysig), S.render_params(shown))
+    assert [p for p in inspect.signature(K).parameters] == list(self.pysig.parameters)
+
+  def witness(self, **kw):
+    kw['decorators'] = self.family
+    return kw
+
+  def reset(self):
+    D.reset(self.fstate)
+    D.reset(self.cstate)
+
+
+def run_decorated(ctx, sig, uid, rng):
+  c = ctx.counters
+  t = DTarget(sig, uid, rng)
+  ctx.label = 'symbolize'
+  t.build()
+  ctx.label = None
+  c['decorated_targets'] += 1
+  for kind, *_ in t.fstack:
+    c['decorator:' + kind] += 1
+  ctx.seen('decorator_stacks', (tuple(k for k, *_ in t.fstack), tuple(k for k, *_ in t.cstack)))
+  check_signature(ctx, t)
+  for j in range(ctx.params['decorated_calls']):
+    before = sum(v['count'] for v in ctx.violations.values())
+    if j % 3 == 2:
+      r = class_call(ctx, t, j, rng)
+      c['decorated_class_constructions_compared'] += 1
+    else:
+      r = functor_call(ctx, t, j, rng)
+      c['decorated_functor_calls_compared'] += 1
+    c['decorated:' + r] += 1
+    if sum(v['count'] for v in ctx.violations.values()) != before:
+      break       # one report per target
+
+
+# -- nested partial arguments completed through deep paths -------------------------
+
+INIT_LOG = []        # (id(self), snapshot of the arguments) per run of a user __init__
+NESTED_MODES = ['root-rebind', 'root-rebind', 'child-rebind', 'child-rebind', 'child-assign',
+                'slot-rebind']
+
+
+class NTarget(Target):
+  """An untyped signature as a function returning, and a class whose __init__
+  records, a plain snapshot of the arguments taken when it runs."""
+
+  def __init__(self, sig, uid, rng):   # pylint: disable=super-init-not-called
+    ns = sys.modules[MODULE].__dict__
+    ns['SNAP'], ns['INIT_LOG'] = D.snap, INIT_LOG
+    params = S.render_params(sig)
+    fname, cname = f'nf_{uid}', f'NK_{uid}'
+    fsrc = f'def {fname}({params}):\n  return SNAP(dict(locals()))\n'
+    csrc = (f'class {cname}:\n'
+            f'  def __init__(self{", " + params if params else ""}):\n'
+            f'    got = dict(locals())\n'
+            f'    got.pop("self")\n'
+            f'    self.got = SNAP(got)\n'
+            f'    INIT_LOG.append((id(self), self.got))\n')
+    exec(fsrc, ns)  # pylint: disable=exec-used
+    exec(csrc, ns)  # pylint: disable=exec-used
+    f, K = ns[fname], ns[cname]
+    f.__module__ = K.__module__ = MODULE
+    Target.__init__(self, sig, uid, rng, f=f, K=K)
+    self.fsrc, self.csrc = fsrc, csrc
+    self.fkind, self.ckind = 'nested-functor', 'nested-class'
+    self.class_entry = rng.choice(['symbolize', 'symbolize-auto-typing', 'wrap', 'wrap-auto-typing'])
+
+  def build(self):
+    class_entry = self.class_entry
+    self.class_entry = 'symbolize'
+    Target.build(self)
+    self.class_entry = class_entry
+    auto = class_entry.endswith('auto-typing')
+    fn = pg.symbolize if class_entry.startswith('symbolize') else pg.wrap
+    self.C = fn(self.K, auto_typing=True) if auto else fn(self.K)
+
+
+def nested_signature(rng):
+  while True:
+    sig = S.make_signature(rng)
+    if not sig['typed'] and (sig['pos'] or sig['kwonly'] or sig['varargs'] or sig['varkw']):
+      return sig
+
+
+def exp_snap(v):
+  """Expected snapshot of a model value (descriptions of nested values inside)."""
+  if D.is_desc(v):
+    return D.expect(v)
+  if isinstance(v, (list, tuple)):
+    return [exp_snap(x) for x in v]
+  if isinstance(v, dict):
+    return {k: exp_snap(x) for k, x in v.items()}
+  return D.snap(v)
+
+
+def materialize(v):
+  """Fresh argument values of a model value."""
+  if D.is_desc(v):
+    return D.build(v)
+  if isinstance(v, tuple):
+    return tuple(materialize(x) for x in v)
+  if isinstance(v, list):
+    return [materialize(x) for x in v]
+  if isinstance(v, dict):
+    return {k: materialize(x) for k, x in v.items()}
+  return v
+
+
+def nested_history(ctx, t, rng):
+  """One object with nested partial arguments, completed through deep paths."""
+  c = ctx.counters
+  sig = t.sig
+  root_kind = rng.choice(['class', 'class', 'functor'])
+  kind = t.ckind if root_kind == 'class' else t.fkind
+  a, k = S.make_call(rng, sig, 'valid')
+  r = t.bind(a, k)
+  assert r[0] == 'ok'
+  named, varargs, extra = dict(r[1]), list(r[2]), dict(r[3])
+  positional_ok = all(n in named or n in t.defaults for n in t.pos)
+  if sig['varargs'] and not varargs and positional_ok and rng.random() < 0.6:
+    varargs = [rng.randint(1, 9)]
+  if sig['varkw'] and not extra and rng.random() < 0.6:
+    extra['zz'] = rng.randint(1, 9)
+  if varargs:
+    for n in t.pos:     # all given positionally
+      named.setdefault(n, t.defaults.get(n))
+  slots = ([('named', n) for n in named] + [('varargs', i) for i in range(len(varargs))]
+           + [('extra', n) for n in extra])
+  if not slots:
+    return
+  paths = {}          # slot path -> description
+  for where, n in rng.sample(slots, min(len(slots), rng.choice([1, 1, 2]))):
+    d = D.make_nested(rng)
+    if where == 'named':
+      named[n] = d
+      paths[n] = d
+    elif where == 'varargs':
+      varargs[n] = d
+      paths[f'{sig["varargs"]}[{n}]'] = d
+    else:
+      extra[n] = d
+      paths[n] = d
+    c['nested_slot:' + (t.param_kind(n) if where != 'varargs' else 'varargs')] += 1
+  state = (named, tuple(varargs), extra)
+  kinds = sorted(set().union(*(D.kinds_in(d) for d in paths.values())))
+  for kd in kinds:
+    c['nested_kind:' + kd] += 1
+
+  # -- how the arguments are supplied ------------------------------------------
+  if varargs:
+    a1 = [named[n] for n in t.pos] + list(varargs)
+  else:
+    npos = 0
+    while npos < len(t.pos) and t.pos[npos] in named:
+      npos += 1
+    a1 = [named[n] for n in t.pos[:rng.randint(0, npos)]]
+  k1 = {n: v for n, v in named.items() if n not in t.pos[:len(a1)]}
+  k1.update(extra)
+  k_call = {}
+  if root_kind == 'functor':
+    # (after a JSON round trip only parameters without any value are bound at call time)
+    later = [n for n in k1 if not D.is_desc(k1[n]) and n in named and n not in t.defaults]
+    if later and rng.random() < 0.5:
+      n = rng.choice(later)
+      k_call[n] = k1.pop(n)
+  ops = []
+  copy = rng.choice(['none', 'none', 'clone-deep', 'clone-shallow', 'json'])
+  if copy == 'json' and 'typed-dict' in kinds:
+    copy = 'clone-deep'     # (whether a Dict keeps its value spec in JSON is left open)
+  how = 'construct'
+  if root_kind == 'class' and rng.random() < 0.3:
+    how = 'partial'
+  witness = t.witness(**{'root': root_kind, 'entry': t.entry if root_kind == 'functor' else 'class-' + t.class_entry,
+                         'source': (t.csrc if root_kind == 'class' else t.fsrc),
+                         how: [a1, k1], 'copy-before-binding': copy, 'operations': ops,
+                         'call': k_call})
+  c['nested_histories'] += 1
+  c['nested_root:' + root_kind] += 1
+  c['nested_copy:' + copy] += 1
+  del INIT_LOG[:]
+
+  ctx.label = 'nested.construct'
+  ctor = t.F if root_kind == 'functor' else (t.C.partial if how == 'partial' else t.C)
+  root = ctor(*materialize(a1), **materialize(k1))
+  if copy.startswith('clone'):
+    ctx.label = 'nested.clone'
+    root = root.clone(deep=copy == 'clone-deep')
+  elif copy == 'json':
+    ctx.label = 'nested.json-round-trip'
+    root = pg.from_json(pg.to_json(root), allow_partial=True)
+  ctx.label = None
+
+  def reference():
+    m = materialize(state)
+    if root_kind == 'functor':
+      return t.final(m[0], m[1], m[2], t.f)
+    return t.final(m[0], m[1], m[2], lambda *aa, **kk: t.K(*aa, **kk).got)
+
+  def write(path, v, mode, suppressed):
+    """Writes leaf `path` of `root` the way `mode` says; returns the mode used."""
+    kp = pg.KeyPath.parse(path)
+    slot = max((s for s in paths if path.startswith(s)), key=len)
+    ctx.label = 'nested.' + mode
+    def do():
+      nonlocal mode
+      if mode == 'root-rebind':
+        root.rebind({path: v})
+        return
+      parent = kp.parent.query(root)
+      if mode == 'child-assign':
+        if isinstance(parent, pg.Functor):
+          setattr(parent, kp.key, v)
+          return
+        if isinstance(parent, pg.Dict):
+          parent[kp.key] = v
+          return
+        mode = 'child-rebind'
+      if mode == 'slot-rebind':
+        rel = path[len(slot):].lstrip('.')
+        pg.KeyPath.parse(slot).query(root).rebind({rel: v})
+        return
+      parent.rebind({kp.key: v})
+    if suppressed:
+      with pg.notify_on_change(False):
+        do()
+    else:
+      do()
+    ctx.label = None
+    D.put(paths[slot], path[len(slot):], v)
+    c['nested_mode:' + mode] += 1
+    return mode
+
+  def usable(obj, phase, mode, mark, what=None):
+    """`obj` must behave like the plain callable called with the final arguments."""
+    want = reference()
+    assert want[0] == 'ok', want
+    mech = f'{kind}.{phase}:{mode}'
+    ok = True
+    c['nested_' + phase + 's_checked'] += 1
+    ctx.label = 'nested.sym_missing'
+    missing = obj.sym_missing()
+    partial = obj.sym_partial
+    ctx.label = None
+    if missing or partial:
+      ctx.violation(what or 'reported-args', f'{kind}:sym_missing-after-{phase}',
+                    f'all arguments are bound ({mode}); sym_missing() = {missing!r:.200}, '
+                    f'sym_partial = {partial}', witness)
+      ok = False
+    if root_kind == 'class':
+      runs = [e for e in INIT_LOG[mark:] if e[0] == id(obj)]
+      got = outcome(lambda: obj.got)
+      c['nested_init_runs_checked'] += 1
+      if got[0] != 'ok' or not runs:
+        ctx.violation(what or 'wrong-state', mech,
+                      f'the arguments are complete but the user __init__ has not run with them '
+                      f'(runs since the binding: {len(runs)}; reading the state: '
+                      f'{got[0]} {got[1]!s:.120}); expected state {want[1]!r:.300}', witness)
+        return False
+      if got[1] != want[1] or runs[-1][1] != want[1]:
+        ctx.violation(what or 'wrong-state', mech,
+                      f'{t.K.__name__}(*final arguments) has {want[1]!r:.300}\n'
+                      f'symbolic object has {got[1]!r:.300} (last run saw {runs[-1][1]!r:.200})', witness)
+        return False
+      if len(runs) != 1:
+        ctx.violation(what or 'init-runs', mech,
+                      f'one binding ran the user __init__ {len(runs)} times', witness)
+        ok = False
+    else:
+      got = outcome(lambda: obj(**k_call))
+      c['nested_functor_calls_compared'] += 1
+      if got[0] != 'ok' or got[1] != want[1]:
+        ctx.violation(what or 'wrong-result', mech,
+                      f'direct call returns {want[1]!r:.300}\nfunctor: {got[0]} {got[1]!r:.300}', witness)
+        return False
+    exp = exp_snap(t.report(*state))
+    for n in k_call:
+      exp[n] = D.MISSING_SNAP
+    have = {n: D.snap(v) for n, v in obj.sym_init_args.sym_items()}
+    c['reported_args_checks'] += 1
+    if have != exp:
+      ctx.violation(what or 'reported-args', f'{kind}:sym_init_args-nested',
+                    f'effective arguments {exp!r:.300}\nreported {have!r:.300}', witness)
+      ok = False
+    return ok
+
+  def bind(path, v, phase):
+    """One write (maybe unnotified, then followed by a notified one). False ends."""
+    mark = len(INIT_LOG)
+    mode = rng.choice(NESTED_MODES)
+    suppressed = rng.random() < 0.2
+    mode = write(path, v, mode, suppressed)
+    ops.append([mode + ('-unnotified' if suppressed else ''), {path: v}])
+    remaining = [s + h for s, d in paths.items() for h in D.holes(d)]
+    if remaining:
+      return True
+    if suppressed:
+      # No notification: the state is left open until the next notified binding.
+      c['nested_suppressed_ops'] += 1
+      cand = [s + l for s, d in paths.items() for l in D.leaves(d)]
+      path2 = rng.choice(cand)
+      slot = max((s for s in paths if path2.startswith(s)), key=len)
+      cur = D.get(paths[slot], path2[len(slot):])
+      v2 = rng.choice([x for x in range(11, 19) if x != cur])
+      mark = len(INIT_LOG)
+      m2 = write(path2, v2, rng.choice(NESTED_MODES), False)
+      ops.append([m2, {path2: v2}])
+      mode = 'after-unnotified'
+    return usable(root, phase, mode, mark)
+
+  # -- completion ----------------------------------------------------------------
+  todo = [s + h for s, d in paths.items() for h in D.holes(d)]
+  rng.shuffle(todo)
+  assert todo
+  while todo:
+    if len(todo) > 1 and rng.random() < 0.3:
+      # several deep paths in one rebind from the root
+      mark = len(INIT_LOG)
+      upd = {p: rng.randint(1, 9) for p in todo}
+      ctx.label = 'nested.root-rebind'
+      root.rebind(upd)
+      ctx.label = None
+      for p, v in upd.items():
+        slot = max((s for s in paths if p.startswith(s)), key=len)
+        D.put(paths[slot], p[len(slot):], v)
+      ops.append(['root-rebind', upd])
+      c['nested_mode:root-rebind-many'] += 1
+      todo = []
+      if not usable(root, 'completion', 'root-rebind', mark):
+        return
+      break
+    p = todo.pop()
+    if not bind(p, rng.randint(1, 9), 'completion'):
+      return
+  c['late_bindings'] += 1
+
+  # -- a later change below an argument -----------------------------------------
+  if rng.random() < 0.7:
+    cand = [s + l for s, d in paths.items() for l in D.leaves(d)]
+    p = rng.choice(cand)
+    slot = max((s for s in paths if p.startswith(s)), key=len)
+    cur = D.get(paths[slot], p[len(slot):])
+    if not bind(p, rng.choice([x for x in range(21, 29) if x != cur]), 'modification'):
+      return
+
+  # -- copies of the complete object --------------------------------------------
+  for what, label in (('clone-differs', 'nested.clone'), ('json-differs', 'nested.json-round-trip')):
+    mark = len(INIT_LOG)
+    ctx.label = label
+    if what == 'clone-differs':
+      o = root.clone(deep=rng.random() < 0.5)
+    else:
+      o = pg.from_json(pg.to_json(root))
+    ctx.label = None
+    c['clone_checks' if what == 'clone-differs' else 'json_checks'] += 1
+    usable(o, 'copy', what.split('-')[0], mark, what=what)
+
+
+def run_nested(ctx, uid, rng):
+  t = NTarget(nested_signature(rng), uid, rng)
+  ctx.label = 'symbolize'
+  t.build()
+  ctx.label = None
+  for _ in range(ctx.params['nested']):
+    nested_history(ctx, t, rng)
+  return t
 
 
 # -- histories of one instance of a symbolized class ---------------------------
@@ -953,6 +1433,8 @@ def run_case(ctx, i):
   kinds = (bool(sig['pos']) + bool(sig['varargs']) + bool(sig['kwonly']) + bool(sig['varkw']))
   if i % ctx.params['family_every'] == 0:
     run_family(ctx, sig, f'{ctx.shard}_{i}', rng)
+  run_decorated(ctx, sig, f'{ctx.shard}_{i}', rng)
+  run_nested(ctx, f'{ctx.shard}_{i}', rng)
   h = run_histories(ctx, t, f'{ctx.shard}_{i}', rng)
   if kinds >= 2 and {'returned', 'rejected'} <= results:
     ctx.mark_nontrivial((S.render_params(sig), t.entry, t.class_entry))
